@@ -614,6 +614,53 @@ class LongHistory(Part):
         return res
 
 
+class Histories(Part):
+    name = "host_bits_after_request_histories"
+    desc = "one object, every history of <=3 anonymize / undo requests over two addresses that differ only in host bits: afterwards both images keep their host bits and agree in all leading bits"
+
+    def __init__(self, tier, seed):
+        self.tier, self.seed = tier, seed
+
+    def cases(self):
+        return [{"fam": f, "B": B} for f in ("4", "6") for B in ((1, 8, 24, 31) if f == "4" else (1, 8, 64, 127))]
+
+    def run(self, case):
+        res = Res()
+        L = 32 if case["fam"] == "4" else 128
+        B = case["B"]
+        low = (1 << B) - 1
+        W = (ipdom.v4_window(self.seed, 2) if case["fam"] == "4" else ipdom.v6_window(self.seed, 2))[::9][:12]
+        mk = lambda: ipdom.make({"fam": case["fam"], "B": B, "env": ["md5", "saltForTest"]})
+        for x in W:
+            if case["fam"] == "4" and refs.is_mask32(x):
+                continue
+            y = x ^ (low & int("5" * 32, 16)) or x ^ 1
+            ops = [("a", x), ("d", x), ("a", y), ("d", y)]
+            for k in (1, 2, 3):
+                for hist in itertools.product(range(4), repeat=k):
+                    an = mk()
+                    for i in hist:
+                        kind, v = ops[i]
+                        (an.anonymize if kind == "a" else an.deanonymize)(v)
+                        res.transitions += 1
+                    fx, fy = an.anonymize(x), an.anonymize(y)
+                    res.states += 1
+                    res.evals += 1
+                    bad = None
+                    if (fx & low) != (x & low) or (fy & low) != (y & low):
+                        bad = "host-bits-changed-after-history"
+                    elif fx >> B != fy >> B:
+                        bad = "leading-bits-depend-on-host-bits-after-history"
+                    if bad:
+                        res.violation("%s|v%s" % (bad, case["fam"]),
+                                      "B=%d history %r: %d -> %d and %d -> %d" % (B, [ops[i] for i in hist], x, fx, y, fy), case)
+                        return res
+            res.nt((case["fam"], B, x))
+        res.out((case["fam"], B))
+        res.samples.append({"case": case, "addresses": len(W), "histories_per_address": 4 + 16 + 64})
+        return res
+
+
 def parts(tier, seed):
     from props import c05
 
@@ -621,4 +668,4 @@ def parts(tier, seed):
     cli.name = "cli_private_and_listed_networks"
     cli.desc = "main() with --preserve-private-addresses / --preserve-addresses / --preserve-prefixes: outside stays outside"
     return [PrefixPart(tier, seed), HostBitsPart(tier, seed), LazyPart(tier, seed), WiringPart(tier, seed),
-            SuffixWiringPart(tier, seed), SecondAnonymizer(tier, seed), LongHistory(tier, seed), cli]
+            SuffixWiringPart(tier, seed), SecondAnonymizer(tier, seed), Histories(tier, seed), LongHistory(tier, seed), cli]
